@@ -174,6 +174,7 @@ type Session struct {
 	Reach           map[int]string // commit number -> physical pages (with content hashes) the committed state depends on
 	resized         bool           // max size was changed on a reopen
 	SparseCrash     bool           // CrashCheck samples the boundaries of this (long) log
+	intoFreeTail    bool           // ShrinkBelowFileSize: lower the limit into the free region at the end of the data area
 	boundPages      uint64         // session-only limit used when opening an unbounded file (0: none)
 	extentLimit     uint64         // C14: no write beyond this after a shrink (0 = unchecked)
 	LastCommit      string         // result of the last Commit
@@ -216,6 +217,11 @@ func (s *Session) fail(prop, kind, format string, args ...interface{}) {
 	s.Failures = append(s.Failures, Failure{Prop: prop, Kind: kind, Msg: fmt.Sprintf(format, args...), Step: s.Step})
 	// C14 quantifies over "any further history" after a resize: what goes wrong with the data or the
 	// allocator of a resized file is C14's business as well
+	// C03 quantifies over "transactions that follow a rolled-back or failed one": what the read-back
+	// oracle finds in a fault program (labelled for C08) is C03's business as well
+	if prop == "C08" && (kind == "root" || strings.HasPrefix(kind, "ro-read") || strings.HasPrefix(kind, "tx-read")) {
+		s.Failures = append(s.Failures, Failure{Prop: "C03", Kind: kind + "-after-failed-tx", Msg: "in a history with failed transactions (injected I/O errors): " + fmt.Sprintf(format, args...), Step: s.Step})
+	}
 	if s.resized && (prop == "C03" || prop == "C04" || prop == "C10") {
 		s.Failures = append(s.Failures, Failure{Prop: "C14", Kind: kind + "-after-resize", Msg: "after a change of the max size: " + fmt.Sprintf(format, args...), Step: s.Step})
 	}
@@ -231,6 +237,9 @@ func (s *Session) emit(format string, args ...interface{}) {
 }
 
 func (s *Session) mark(m string) { s.Markers[m]++ }
+
+// Mark counts a scenario marker (for callers outside the package).
+func (s *Session) Mark(m string) { s.mark(m) }
 
 // ErrKind maps an error to a small canonical enum: top kind[/first nested kind].
 func ErrKind(err error) string {
